@@ -27,6 +27,7 @@ class Result:
         self.obligations = []      # dicts
         self.error = None          # checker error text
         self.paths = 0
+        self.pre_ok = 0
         self.normal_exits = 0
         self.exc_exits = {}
         self.assumptions = set()
@@ -83,6 +84,8 @@ def collect(c, registry=None, timeout_ms=10000):
                 k = ob.key()
                 if k not in seen:
                     seen[k] = ob
+        if res.pre_ok == 0:
+            raise Unsupported('precondition of %s is unsatisfiable on every path (vacuous contract)' % c.qualname)
         res.rules = dict(bitops.RULES_FIRED)
         obs = list(seen.values())
         res._obs = obs
@@ -125,7 +128,8 @@ def run_path(I, c, fn, module, res):
         for f in c.facts:
             ctx.assume(f)
         if not ctx.feasible(z3.BoolVal(True)):
-            raise Unsupported('precondition of %s is unsatisfiable (vacuous contract)' % c.qualname)
+            raise PathEnd()
+        res.pre_ok += 1
         old = I.calls.snapshot_frame(I, fr)
         I.old_frame_entry = old
         I.old_frame = old
@@ -327,6 +331,43 @@ def model_dict(m):
     return out
 
 
+def layout_instances(m, fs):
+    """parse results mentioned by the formulas, evaluated in the model:
+    [{layout, array, pos, fields{path: value}}] -- used to synthesise concrete bytes"""
+    from .calls import LAYOUTS
+    out = {}
+    for t in _walk(fs):
+        if not (z3.is_app(t) and t.decl().kind() == z3.Z3_OP_UNINTERPRETED and t.num_args() == 2):
+            continue
+        n = t.decl().name()
+        if '.' not in n:
+            continue
+        lay, path = n.split('.', 1)
+        if lay not in LAYOUTS or _has_var(t):
+            continue
+        arr = t.arg(0)
+        if not (z3.is_const(arr) and arr.decl().kind() == z3.Z3_OP_UNINTERPRETED):
+            continue
+        try:
+            pos = m.eval(t.arg(1), model_completion=True)
+            val = m.eval(t, model_completion=True)
+            if not z3.is_int_value(pos):
+                continue
+            if z3.is_int_value(val):
+                v = val.as_long()
+            elif z3.is_true(val) or z3.is_false(val):
+                v = z3.is_true(val)
+            elif z3.is_string_value(val):
+                v = val.as_string()
+            else:
+                continue
+        except Exception:
+            continue
+        key = (lay, arr.decl().name(), pos.as_long())
+        out.setdefault(key, {})[path] = v
+    return [dict(layout=k[0], array=k[1], pos=k[2], fields=v) for k, v in sorted(out.items(), key=lambda kv: kv[0][2])]
+
+
 def _solve(pc, goal, timeout_ms, axioms):
     s = z3.Solver()
     s.set('timeout', timeout_ms)
@@ -350,6 +391,7 @@ def discharge(res, timeout_ms=10000, want_models=True):
         if verdict == 'refuted' and want_models:
             try:
                 rec['model'] = model_dict(s.model())
+                rec['model']['__synth__'] = layout_instances(s.model(), list(ob.pc) + [ob.goal])
             except Exception as e:
                 rec['model'] = {'error': str(e)}
         if verdict == 'undecided':
@@ -358,6 +400,7 @@ def discharge(res, timeout_ms=10000, want_models=True):
             try:
                 m = s.model()
                 rec['candidate_model'] = model_dict(m)
+                rec['candidate_model']['__synth__'] = layout_instances(m, list(ob.pc) + [ob.goal])
             except Exception:
                 pass
         rec['time'] = round(time.time() - t0, 4)
